@@ -68,7 +68,7 @@ class World:
         self.rng, self.ns = rng, ns
         self.nid = nid if nid is not None else rng.choice([1, 1, 2, 64, 127])
         cfg = Config(nodeid=self.nid, freq=1000, tmrnum=8)
-        gen.add_mandatory(cfg, ssdo=ns, ssdo_rw=False, emcy_hist=0)
+        gen.add_mandatory(cfg, ssdo=ns, ssdo_rw=False, emcy_hist=0, ssdo_dyn=(ns > 1 and rng.random() < 0.5))
         self.om = {}
         m = self.om
 
